@@ -44,6 +44,35 @@ fn oversize(size: usize) -> ! {
     unsafe { libc::_exit(99) }
 }
 
+/// Fatal signals raised while a case runs (glibc's double-free abort, a segfault from a bad pointer):
+/// report which case was running, then exit with a distinct code. The parent process re-runs the
+/// case and reports a violation only if the crash reproduces.
+extern "C" fn on_fatal_signal(sig: libc::c_int) {
+    fn put(b: &[u8]) { unsafe { libc::write(2, b.as_ptr() as *const libc::c_void, b.len()); } }
+    put(b"\nVERIF-CRASH signal=");
+    let d = [b'0' + (sig / 10) as u8, b'0' + (sig % 10) as u8];
+    put(&d);
+    put(b" entry=");
+    let (np, nl) = CASE_NAME.with(|c| c.get());
+    if np != 0 { put(unsafe { std::slice::from_raw_parts(np as *const u8, nl) }) }
+    put(b" case=");
+    let (p, l) = CASE_PTR.with(|c| c.get());
+    if p != 0 {
+        let b = unsafe { std::slice::from_raw_parts(p as *const u8, l.min(4096)) };
+        for x in b { let h = [b"0123456789abcdef"[(x >> 4) as usize], b"0123456789abcdef"[(x & 15) as usize]]; put(&h) }
+    }
+    put(b"\n");
+    unsafe { libc::_exit(98) }
+}
+
+pub fn install_signal_handlers() {
+    unsafe {
+        for sig in [libc::SIGABRT, libc::SIGSEGV, libc::SIGBUS, libc::SIGILL] {
+            libc::signal(sig, on_fatal_signal as usize);
+        }
+    }
+}
+
 unsafe impl GlobalAlloc for Counting {
     unsafe fn alloc(&self, l: Layout) -> *mut u8 {
         if l.size() > OVERSIZE { oversize(l.size()) }
@@ -241,6 +270,7 @@ pub fn drop_check(input: &[u8]) -> CaseResult {
     use std::collections::{BTreeMap, BTreeSet, BinaryHeap, LinkedList, VecDeque};
     macro_rules! shape { ($name:expr, $t:ty) => {{
         counted_reset();
+        set_case(concat!("drop/", $name), input);
         let r = std::panic::catch_unwind(|| { let r: Result<$t, Error> = minicbor::decode(input); let ok = r.is_ok(); drop(r); ok });
         match r {
             Err(_) => return Err(Fail::new(concat!("drop/", $name, "/panic"), format!("decode::<{}> of {} panicked", $name, crate::util::short_hex(input)))),
@@ -270,6 +300,7 @@ pub fn drop_check(input: &[u8]) -> CaseResult {
     shape!("Range<Counted>", std::ops::Range<Counted>);
     shape!("Vec<[Counted;2]>", Vec<[Counted; 2]>);
     shape!("WithCounted", WithCounted);
+    clear_case();
     Ok(())
 }
 
